@@ -5,7 +5,7 @@
    either for flat levels (ConvTotal) -- for trees the remaining alternatives are stated. *)
 From Coq Require Import Lia List Bool Arith.
 From BpafModel Require Import Conv Wf.
-From BpafLemmas Require Import Tac EvalEq Find Reach AbsSim ConvRefine ConvTotal ConvChain ConvTree ConvSound ConvTreeSound QuietLaws TotalLaws.
+From BpafLemmas Require Import Tac EvalEq Find Reach AbsSim ConvRefine ConvTotal ConvChain ConvTree ConvSound ConvTreeSound QuietLaws TotalLaws TotalAll.
 Import ListNotations.
 
 (* ------------------------------------------------------------------ the compiled parser is quiet material *)
@@ -359,8 +359,8 @@ Proof.
 Qed.
 
 (* C04/C01: a conventional subcommand tree is total on every vector *)
-Theorem tree_run_total feat env l name argv : tree_ok l -> TotalLaws.normal (run_inner feat env (compile_options l) name argv).
-Proof. intros Hok. apply TotalLaws.run_total. apply oko_tree. exact Hok. Qed.
+Theorem tree_run_total feat env l name argv : tree_ok l -> TotalAll.normal (run_inner feat env (compile_options l) name argv).
+Proof. intros Hok. apply TotalAll.run_total. apply oko_tree. exact Hok. Qed.
 
 (* C01, last clause, for whole trees: every specified non-sentence is reported on stderr *)
 Theorem denote_reject_stderr_tree feat env l argv :
@@ -369,7 +369,7 @@ Theorem denote_reject_stderr_tree feat env l argv :
 Proof.
   intros Hok Hpl Hd.
   pose proof (denote_reject_stderr_partial feat env l argv Hok Hpl Hd) as H1.
-  pose proof (tree_run_total feat env l None argv Hok) as H2. unfold TotalLaws.normal in H2.
+  pose proof (tree_run_total feat env l None argv Hok) as H2. unfold TotalAll.normal in H2.
   destruct (run_inner feat env (compile_options l) None argv) as [v|h|c|m|w|]; try contradiction; eauto.
 Qed.
 Print Assumptions denote_reject_stderr_tree.
